@@ -373,7 +373,9 @@ PeerCloseIdleCore(c) ==        \* the server closes a pooled keep-alive connecti
 CloseCore ==                   \* connector.close() -> _close_immediately()
     /\ AllowClose /\ ~closed
     /\ closed' = TRUE
-    /\ alive' = [c \in Tasks |-> FALSE]        \* idle and acquired protocols are closed
+    \* idle and acquired protocols are closed; a connection whose creation has completed but which its
+    \* creator has not taken over yet is unknown to the connector (FinishCreate closes it afterwards)
+    /\ alive' = [c \in Tasks |-> IF pc[c] \in {"creating", "cend"} THEN alive[c] ELSE FALSE]
     /\ idle' = [k \in Keys |-> <<>>]
     /\ acquired' = {}
     /\ acqHost' = [k \in Keys |-> {}]
@@ -483,7 +485,7 @@ NoLeak ==
 \* code's behaviour for it - it fails after creation - but states nothing about it.)
 CloseStep ==
     (~closed /\ closed') =>
-        /\ \A c \in Tasks : ~alive'[c]
+        /\ \A c \in Tasks : alive'[c] => pc[c] \in {"creating", "cend"}
         /\ \A k \in Keys : waiters'[k] = <<>> /\ idle'[k] = <<>>
         /\ \A t \in Tasks : fut'[t] # "pending"
         /\ \A t \in Tasks : (pc[t] = "waiting" /\ fut[t] = "pending") => t \in SeqToSet(ready')
